@@ -38,7 +38,18 @@ def generate(ctx):
                 nontriv = True
         opts = {"wrap": rng.choice([0, 0, 1, 4, L + 3]), "start": -1, "end": -1, "omit_ref": rng.random() < 0.25,
                 "omit_ins": rng.random() < 0.25, "threads": rng.choice([1, 2, 4])}
-        r = rng.random()
+        equalw = L >= 12 and cid % 6 == 5
+        if equalw:
+            # several queries whose insertions have the SAME total length at different places, handled one after the other by
+            # one worker, cut by a window: whatever is kept from one pair to the next must not depend on the row width alone
+            recs, ilen = [], rng.randint(1, 3)
+            for qi in range(rng.randint(2, 4)):
+                a = rng.randint(1, L - 2)
+                cig = [("M", a), ("I", ilen), ("M", L - a)] if rng.random() < 0.85 else [("M", L)]
+                recs.append({"name": "e%d" % qi, "flag": 0, "pos": 0, "cigar": cig, "seq": samgen.build_seq(rng, cig, 0, ref.upper())})
+            opts.update(threads=1, omit_ins=False)
+            nontriv = True
+        r = rng.random() if not equalw else 0.4
         if r < 0.15:
             opts["start"] = rng.randint(1, L)
         elif r < 0.3:
